@@ -17,6 +17,8 @@ struct Section {
     cb_branch: usize,
     chain_branch: usize,
     mask: u32,
+    /// version field of the parent block header inside the section: 0 = 0x20000000, 1 = the block's own version, 2 = 1
+    parent_version: u8,
 }
 
 #[derive(Clone, Debug)]
@@ -34,7 +36,7 @@ fn hash_n(seed: u8, i: usize) -> [u8; 32] {
     h
 }
 
-fn build_section(s: &Section, seed: u8) -> AuxPow {
+fn build_section(s: &Section, seed: u8, block_version: u32) -> AuxPow {
     let parent_coinbase = match s.parent_cb {
         0 => Tx { version: 1, segwit: false, inputs: vec![TxIn::coinbase(vec![3, 1, 2, 3, 0xfa, 0xbe, b'm', b'm'])], outputs: vec![TxOut { value: 25, script: script::p2pkh(&script::h20(seed)) }], locktime: 0 },
         1 => Tx { version: 2, segwit: false, inputs: vec![TxIn::coinbase(vec![0x51; 100])], outputs: vec![TxOut { value: 25, script: vec![0x51; 0xfd] }, TxOut { value: 0, script: script::op_return(b"aux") }], locktime: 7 },
@@ -51,7 +53,7 @@ fn build_section(s: &Section, seed: u8) -> AuxPow {
         coinbase_mask: s.mask,
         chain_branch: (0..s.chain_branch).map(|i| hash_n(seed.wrapping_add(40), i)).collect(),
         chain_mask: s.mask.rotate_left(3),
-        parent_header: Header { version: 0x20000000, prev: hash_n(seed, 500), merkle: hash_n(seed, 501), time: 1_500_000_000, bits: 0x1b00ffff, nonce: 0xdeadbeef },
+        parent_header: Header { version: match s.parent_version { 0 => 0x20000000, 1 => block_version, _ => 1 }, prev: hash_n(seed, 500), merkle: hash_n(seed, 501), time: 1_500_000_000, bits: 0x1b00ffff, nonce: 0xdeadbeef },
     }
 }
 
@@ -59,7 +61,7 @@ pub fn run() -> Report {
     let mut rep = Report::new("C12", "e1");
     let thorough = is_thorough();
     let mut cases = Vec::new();
-    let default_sec = Section { parent_cb: 0, cb_branch: 1, chain_branch: 0, mask: 0 };
+    let default_sec = Section { parent_cb: 0, cb_branch: 1, chain_branch: 0, mask: 0, parent_version: 0 };
     for cn in ["namecoin", "dogecoin"] {
         let thr = coin(cn).auxpow_from.unwrap();
         let levels = [thr - 1, thr, thr + 1];
@@ -79,7 +81,9 @@ pub fn run() -> Report {
             for &cb in &cbs {
                 for &ch in &chs {
                     for mask in [0u32, 1, 0xffff_ffff] {
-                        cases.push(Case { coin: cn, versions: vec![thr - 1, thr, thr + 1], section: Section { parent_cb, cb_branch: cb, chain_branch: ch, mask }, label: "section-product".into() });
+                        for parent_version in 0..3u8 {
+                            cases.push(Case { coin: cn, versions: vec![thr - 1, thr, thr + 1], section: Section { parent_cb, cb_branch: cb, chain_branch: ch, mask, parent_version }, label: "section-product".into() });
+                        }
                     }
                 }
             }
@@ -87,15 +91,15 @@ pub fn run() -> Report {
         // long-branch sweeps (CompactSize boundary at 0xfd)
         let longs: Vec<usize> = if thorough { vec![5, 11, 32, 33, 0xfc, 0xfd, 0xfe, 1000] } else { vec![11, 33, 0xfd] };
         for &n in &longs {
-            cases.push(Case { coin: cn, versions: vec![thr, thr], section: Section { parent_cb: 2, cb_branch: n, chain_branch: 1, mask: 5 }, label: "cb-branch-sweep".into() });
-            cases.push(Case { coin: cn, versions: vec![thr, thr], section: Section { parent_cb: 1, cb_branch: 1, chain_branch: n, mask: 5 }, label: "chain-branch-sweep".into() });
+            cases.push(Case { coin: cn, versions: vec![thr, thr], section: Section { parent_cb: 2, cb_branch: n, chain_branch: 1, mask: 5, parent_version: 1 }, label: "cb-branch-sweep".into() });
+            cases.push(Case { coin: cn, versions: vec![thr, thr], section: Section { parent_cb: 1, cb_branch: 1, chain_branch: n, mask: 5, parent_version: 2 }, label: "chain-branch-sweep".into() });
         }
     }
     // negative control: coins without AuxPoW never have a section, whatever the version
     for c in COINS.iter().filter(|c| c.auxpow_from.is_none()) {
         cases.push(Case { coin: c.name, versions: vec![1, 0x10100, 0x10101, 0x10102, 0x620101, 0x620102, 0x620103, 0x7fff_ffff, 0x8000_0000, 0xffff_fffe, 0xffff_ffff], section: default_sec.clone(), label: "negative-control".into() });
     }
-    rep.rule = "namecoin/dogecoin: all 27 orders of below/at/above-threshold versions in a 3-block chain; full product parent-coinbase form (legacy, legacy 0xfd-script, segwit) x coinbase-branch {0,1,2} x chain-branch {0,1,2} x masks {0,1,0xffffffff}; long-branch sweeps across the 0xfd CompactSize boundary; six other coins with 11 versions around both thresholds and up to 0xffffffff (never a section); --verify on; non-trivial = distinct case with >= 1 block carrying a section, or a negative control".into();
+    rep.rule = "namecoin/dogecoin: all 27 orders of below/at/above-threshold versions in a 3-block chain; full product parent-coinbase form (legacy, legacy 0xfd-script, segwit) x coinbase-branch {0,1,2} x chain-branch {0,1,2} x masks {0,1,0xffffffff} x parent-header version {0x20000000, the block's own version, 1}; long-branch sweeps across the 0xfd CompactSize boundary; six other coins with 11 versions around both thresholds and up to 0xffffffff (never a section); --verify on; non-trivial = distinct case with >= 1 block carrying a section, or a negative control".into();
     rep.bound = json!({"cases": cases.len(), "max_branch": if thorough { 1000 } else { 0xfd }});
     let root = refmodel::world::scratch_root();
     let parts = par_fold(
@@ -113,7 +117,7 @@ pub fn run() -> Report {
                 cb.time += 600;
                 let mut b = Block::build(*v, prev, cb.time, 0x1d00ffff, 99, txs);
                 if cn.auxpow_from.map(|t| *v >= t).unwrap_or(false) {
-                    b.auxpow = Some(build_section(&c.section, (k * 7 + 1) as u8));
+                    b.auxpow = Some(build_section(&c.section, (k * 7 + 1) as u8, *v));
                     n_sections += 1;
                 }
                 cb.blocks.push(b);
